@@ -346,7 +346,11 @@ func C13(r *h.Run) {
 	wg.Wait()
 	r.Sum.Evaluations += int(calls.Load())
 	r.Sum.Distribution["concurrent_calls"] = int(calls.Load())
-	r.Sample("concurrent_calls", map[string]any{"goroutines": G, "calls_per_goroutine": K, "client_sets": len(sets), "pool_gets": tr.gets, "pool_puts": tr.puts, "race_detector": raceEnabled})
+	// handlers may still be finishing on the servers' goroutines: read the counters under the trace's lock
+	tr.mu.Lock()
+	gets, puts := tr.gets, tr.puts
+	tr.mu.Unlock()
+	r.Sample("concurrent_calls", map[string]any{"goroutines": G, "calls_per_goroutine": K, "client_sets": len(sets), "pool_gets": gets, "pool_puts": puts, "race_detector": raceEnabled})
 	if failures.Load() > 0 {
 		ff, _ := firstFail.Load().(map[string]any)
 		r.Fail(h.Failure{Key: "concurrency/cross-talk", Family: "concurrent_calls", What: fmt.Sprintf("%d call(s) did not produce their solo result under concurrency: %v", failures.Load(), ff["what"]), Input: ff["input"]})
